@@ -189,7 +189,7 @@ Lemma IC_step s e : Inv s -> IC s -> IC (step repaired s e).
 Proof.
   intros HI H. unfold IC in *.
   assert (Hval : resolved s = true -> dval (gs s) (value s)).
-  { intros Er. destruct HI as [[_ [_ [_ [_ [[V1 _] _]]]]] _]. destruct (V1 Er) as [Hv [A2 [A3 _]]]. destruct Hv as [Hv|[Hv _]]; [|now left].
+  { intros Er. destruct HI as [[_ [_ [_ [_ [[V1 _] _]]]]] _]. destruct (V1 Er) as [Hv [A2 [A3 _]]]. destruct Hv as [Hv|Hv]; [|now left].
     right. exists (vgen s), (getg s (vgen s)). split; [exact Hv|]. split; [unfold getg; now apply nth_error_nth' | exact A3]. }
   assert (Mono : forall l, ICG (gs s) l -> ICG (gs (step repaired s e)) l) by (intros l; apply ICG_mono, gdone_le_step).
   destruct e as [c|k|r|a|g|a|g en|g v hr er|g|k|c|c|c|c res|c].
@@ -219,7 +219,7 @@ Proof.
     match goal with |- ICG (gs ?a) _ => replace (gs a) with (gs s0) by (destruct (Nat.eqb e 0); reflexivity) end.
     apply call_cbs_ICG.
     + cbn [nvalid]. destruct HI as [[_ [HS _]] _]. destruct (HS g Hl) as [S1 _]. destruct (getg_nth_error s g x Ex) as [Eg _]. rewrite Eg in S1.
-      destruct (S1 v hasrel e Ep) as [[Hv|[Hv _]] _]; [|now left]. right. exists g, (with_gpc x GDone). split; [exact Hv|]. split; [|reflexivity].
+      destruct (S1 v hasrel e Ep) as [[Hv|Hv] _]; [|now left]. right. exists g, (with_gpc x GDone). split; [exact Hv|]. split; [|reflexivity].
       unfold s0. rewrite gs_setg. now apply nth_error_set_nth_same.
     + destruct (Nat.eqb e 0); exact H0.
   - apply Mono; cbn [step]. unfold start_consumer. apply add_ref_ICG; [exact Hval|]. cbn [conss set_conss].
